@@ -75,8 +75,8 @@ def clang_args(cfgdir):
             '-I' + os.path.join(REPO, 'src'), '-I' + os.path.join(VERIF, 'drivers'), '-Wno-everything']
 
 
-def load_ast(src, cfgdir, workdir, tag):
-    args = clang_args(cfgdir)
+def load_ast(src, cfgdir, workdir, tag, cxxdefs=()):
+    args = clang_args(cfgdir) + ['-D' + d for d in cxxdefs]
     cache = os.environ.get('VERIF_AST_CACHE')
     key = None
     if cache:
@@ -142,7 +142,7 @@ def build_unit(unit, cfg, workdir, extra_roots=()):
     if not os.path.exists(src):
         raise Undecided('unit source missing: ' + src)
     t0 = time.time()
-    tu = load_ast(src, cfgdir, workdir, unit.name + '_' + cfg)
+    tu = load_ast(src, cfgdir, workdir, unit.name + '_' + cfg, unit.cxxdefs)
     em = Emitter(tu, abstract=unit.abstract)
     roots = []
     for sel in list(unit.roots) + list(extra_roots):
@@ -204,7 +204,8 @@ def harness_for(bu, g):
     call = '%s(%s);' % (g.enforce, ', '.join(args))
     if ret != 'void':
         call = '%s __r = %s' % (ret, call)
-    return 'void %s(void)\n{\n%s\n  __exc = 0;\n  VERIF_EXCLUDE;\n  %s\n  VERIF_CANARY;\n}\n' % (name, '\n'.join(decls), call)
+    si = '' if any(re.search(r'\b%s\(' % re.escape(g.enforce), x) for x in bu.em.global_inits) else '__verif_static_init();'
+    return 'void %s(void)\n{\n%s\n  __exc = 0;\n  %s\n  VERIF_EXCLUDE;\n  %s\n  VERIF_CANARY;\n}\n' % (name, '\n'.join(decls), si, call)
 
 
 def solver_flags(g):
